@@ -562,3 +562,26 @@ def node_mode_plumbing(prog, rep, rid: str):
     translators are a necessary condition of every property that quantifies over node-weighted graphs (C11.R3)."""
     from rules import c11
     c11.naming_rule(prog, RuleProxy(rep, rid), "C11.R3")
+
+
+def split_or_return_guards(func: ast.AST) -> ast.AST:
+    """A copy of the function in which `if A or B: return X` (no else) is written as `if A: return X` followed by `if B: return X`
+    (the same control flow: `or` evaluates left to right and stops at the first true operand).  Line numbers are kept."""
+    import copy
+    f2 = copy.deepcopy(func)
+
+    def fix(block):
+        out = []
+        for st in block:
+            for fld in ("body", "orelse", "finalbody"):
+                if isinstance(getattr(st, fld, None), list) and not isinstance(st, (ast.FunctionDef, ast.AsyncFunctionDef, ast.ClassDef)):
+                    setattr(st, fld, fix(getattr(st, fld)))
+            if isinstance(st, ast.If) and not st.orelse and isinstance(st.test, ast.BoolOp) and isinstance(st.test.op, ast.Or) and \
+                    len(st.body) == 1 and isinstance(st.body[0], (ast.Return, ast.Continue, ast.Break)):
+                for v in st.test.values:
+                    out.append(ast.copy_location(ast.If(test=v, body=[copy.deepcopy(st.body[0])], orelse=[]), st))
+            else:
+                out.append(st)
+        return out
+    f2.body = fix(f2.body)
+    return f2
